@@ -271,9 +271,7 @@ class SwiftJudge(Judge):
         from stone.frontend.frontend import specs_to_ir
         from stone.compiler import Compiler
         schema, routes, surfaces = obj['schema'], obj['routes'], obj['surfaces']
-        specs = [(p, t.replace('struct Route\n    style String = "rpc"',
-                               'struct Route\n    auth String = "user"\n    host String = "api"\n    style String = "rpc"'))
-                 for p, t in render_model(schema, routes)]
+        specs = render_model(schema, routes)
         ctx = {'vector': {'cfg': obj['cfg'], 'c': obj['c']}, 'specs': specs}
 
         def bad(msg, cls=None):
@@ -305,6 +303,7 @@ class SwiftJudge(Judge):
             finally:
                 shutil.rmtree(out, ignore_errors=True)
         scanned = {}
+        broken = set()
         for row, files in outs.items():
             scanned[row] = {}
             for rel, text in files.items():
@@ -315,6 +314,7 @@ class SwiftJudge(Judge):
                 prob = prob or balance(code)
                 if prob:
                     bad('%s: %s is not lexically well formed: %s' % (row, rel, prob), 'lexical')
+                    broken.add(row)
                     continue
                 self.count('files_lexed')
                 if objc:
@@ -326,6 +326,8 @@ class SwiftJudge(Judge):
                 for where, key in dups:
                     bad('%s: %s declares %s twice in %s' % (row, rel, key, where or 'file scope'), 'redeclared')
         nss = [s for s in surfaces.values()]
+        for row in broken:          # declarations of a file that does not lex cannot be counted; the lexical report stands
+            scanned.pop(row, None)
         if 'swift_types' in scanned:
             self.swift_types(scanned, nss, bad)
         if 'swift_types_objc' in scanned:
